@@ -35,6 +35,19 @@ class NN(torch.nn.Module):
         return self.a * y * y + self.b * y - self.c
 
 
+class NNRev(torch.nn.Module):
+    """parameters registered in the order c, b, a: with c frozen, a non-differentiable parameter PRECEDES the differentiable
+    ones and the parameter the map is non-linear in comes last"""
+    def __init__(self, a, b, c):
+        super().__init__()
+        self.c = torch.nn.Parameter(c, requires_grad=c.requires_grad)
+        self.b = torch.nn.Parameter(b, requires_grad=b.requires_grad)
+        self.a = torch.nn.Parameter(a, requires_grad=a.requires_grad)
+
+    def forward(self, y):
+        return self.a * y * y + self.b * y - self.c
+
+
 class Inner(torch.nn.Module):
     def __init__(self, a, b):
         super().__init__()
@@ -95,6 +108,9 @@ def build(kind, a, b, c):
         return (lambda y, a_, b_, c_: a_ * y * y + b_ * y - c_), (a, b, c), [a, b, c]
     if kind == "nn":
         m = NN(a, b, c, None)
+        return m.forward, (), [m.a, m.b, m.c]
+    if kind == "nn_rev":
+        m = NNRev(a, b, c)
         return m.forward, (), [m.a, m.b, m.c]
     if kind == "nn_nested":
         m = NNNested(a, b, c)
@@ -197,6 +213,12 @@ def _run(functional, fcn, params, cx, aux):
         ys = aux["ys"]
         method = lambda f, y0, p, **kw: ys.detach().clone()
         return rootfinder(fcn, aux["y0"], params=params, method=method)
+    if functional == "rootfinder_bck":
+        # the backward linear solve goes through solve's own autograd Function (any method but the literal "exactsolve"),
+        # which re-evaluates the Jacobian operator with substituted parameters
+        ys = aux["ys"]
+        method = lambda f, y0, p, **kw: ys.detach().clone()
+        return rootfinder(fcn, aux["y0"], params=params, method=method, bck_options={"method": "custom_exactsolve"})
     if functional == "solve_ivp":
         # the adapter must stay a sibling of the user's function (a plain lambda would hide the object's parameters)
         @make_sibling(fcn)
@@ -241,11 +263,12 @@ def _run(functional, fcn, params, cx, aux):
 
 
 def same(cx, functional="rootfinder", kind="nn", pattern="all", second=True):
-    req = {"all": (True, True, True), "first_frozen": (False, True, True), "last_frozen": (True, True, False)}[pattern]
+    req = {"all": (True, True, True), "first_frozen": (False, True, True), "last_frozen": (True, True, False),
+           "middle_frozen": (True, False, True)}[pattern]
     a = cx.sym("a", (1,), requires_grad=req[0])
     b = cx.sym("b", (1,), requires_grad=req[1])
     ys = cx.sym("ys", (1,))
-    if functional in ("rootfinder", "equilibrium"):
+    if functional in ("rootfinder", "rootfinder_bck", "equilibrium"):
         # c chosen so that ys is a root (value a leaf)
         c = (a.detach() * ys * ys + b.detach() * ys).clone().requires_grad_(req[2])
         cx.assume(2 * a.detach() * ys + b.detach() != 0)
@@ -343,6 +366,13 @@ def configs(tier):
         for kind in ("nn", "editable_nn", "mixed", "sibling"):
             add("%s/%s/first_frozen" % (fn, kind), same, functional=fn, kind=kind, pattern="first_frozen", second=fn != "jac")
         add("%s/nn/last_frozen" % fn, same, functional=fn, kind="nn", pattern="last_frozen", second=False)
+    for kind in ("nn", "nn_rev", "editable_nn", "mixed"):
+        for pattern in ("first_frozen", "last_frozen", "middle_frozen"):
+            add("rootfinder_bck/%s/%s" % (kind, pattern), same, functional="rootfinder_bck", kind=kind, pattern=pattern, second=True,
+                opts={"budget_s": 400, "timeout_ms": 30000})
+    for fn in ("rootfinder", "solve_ivp", "quad", "jac"):
+        for pattern in ("all", "last_frozen", "middle_frozen"):
+            add("%s/nn_rev/%s" % (fn, pattern), same, functional=fn, kind="nn_rev", pattern=pattern, second=fn != "jac")
     for n in ((2, 3, 4, 5) if tier == "quick" else (2, 3, 4, 5, 6)):
         add("uniquifier/n%d" % n, uniquifier, n=n, opts={"max_paths": 1000, "max_decisions": 400, "budget_s": 900})
     if tier == "thorough":
